@@ -49,11 +49,32 @@ def bootstrap():
     pfile = os.path.realpath(permuta.__file__)
     if not pfile.startswith(os.path.realpath(REPO) + os.sep):
         raise HarnessError(f"permuta imported from {pfile}, not from {REPO}")
-    _WORK = os.path.join(ROOT, ".work", str(os.getpid()))
+    # a fuzz campaign started by a check works below that check's scratch area (PV_WORK), so
+    # that the check removes it: atexit handlers do not run in a process that atheris ends
+    _WORK = os.path.join(os.environ.get("PV_WORK") or os.path.join(ROOT, ".work"), str(os.getpid()))
     os.makedirs(_WORK, exist_ok=True)
+    _sweep_stale(os.path.dirname(_WORK))
     os.chdir(_WORK)
     atexit.register(_cleanup, os.getpid(), _WORK)
     return _WORK
+
+
+def _sweep_stale(base):
+    """Scratch areas of runs that were killed (their atexit never ran) are removed by the next
+    run: a directory named after a process id that no longer exists belongs to nobody."""
+    try:
+        names = os.listdir(base)
+    except OSError:
+        return
+    for name in names:
+        if not name.isdigit() or int(name) == os.getpid():
+            continue
+        try:
+            os.kill(int(name), 0)
+        except ProcessLookupError:
+            shutil.rmtree(os.path.join(base, name), ignore_errors=True)
+        except OSError:
+            pass
 
 
 def _cleanup(pid, path):
@@ -425,7 +446,7 @@ def fuzz(acc, target, fn, runs, nproc=None, max_len=64, corpus_seeds=()):
         if target.startswith("hyp:"):
             cmd.append("-len_control=0")  # Hypothesis rejects short buffers: start at full length
         cmd.append(corpus)
-        env = dict(os.environ, PV_ROOT=ROOT, PYTHONHASHSEED="0")
+        env = dict(os.environ, PV_ROOT=ROOT, PYTHONHASHSEED="0", PV_WORK=os.path.join(out, "work"))
         procs.append((out, subprocess.Popen(cmd, env=env, stdout=subprocess.DEVNULL, stderr=subprocess.DEVNULL, cwd=out)))
     total = {"executions": 0, "nontrivial": 0, "known": 0, "campaigns": 0}
     for out, proc in procs:
@@ -445,6 +466,7 @@ def fuzz(acc, target, fn, runs, nproc=None, max_len=64, corpus_seeds=()):
             acc.record(payload["check"], fn[payload["check"]], payload["case"])
         elif code not in (0,):
             raise HarnessError(f"atheris campaign {target} in {out} ended with exit code {code} without a violation file")
+        shutil.rmtree(out, ignore_errors=True)
     acc.note(f"atheris_{target}", total)
     acc.count(f"atheris_{target}_executions", total["executions"])
     # executions of the check function inside the fuzz target are evaluations; their non-trivial
